@@ -7,7 +7,7 @@ EXTENDS ItsChecker, Alpide
 
 \* layer 7 does not exist (RDH sanity reports it); the stave rules treat it as an outer layer
 BarrelOf(fee) == LET ly == Layer(fee) IN IF ly <= 2 THEN "IB" ELSE IF ly <= 4 THEN "ML" ELSE "OL"
-FrInit == [barrel |-> "NONE", inFrame |-> FALSE, has |-> FALSE, start |-> 0, lanes |-> << >>, fatal |-> << >>, flags |-> NoFlags]
+FrInit == [barrel |-> "NONE", inFrame |-> FALSE, has |-> FALSE, start |-> 0, lanes |-> << >>, fatal |-> << >>, flags |-> NoFlags, custom |-> NoCustom]
 StaveInit == [ck |-> LinkInit, fr |-> FrInit]
 
 LaneNo(barrel, id) == IF barrel = "IB" THEN IbLane(id) ELSE ObLane(id)
@@ -24,7 +24,7 @@ SeqToSet(s) == {s[i] : i \in 1..Len(s)}
 FrameResult(fr, barrel) ==
    LET ib == barrel = "IB"
        n == Len(fr.lanes)
-       verdicts == [i \in 1..n |-> LaneVerdictD(fr.lanes[i].d, ib, LaneNo(barrel, fr.lanes[i].id))]
+       verdicts == [i \in 1..n |-> LaneVerdictD(fr.lanes[i].d, ib, LaneNo(barrel, fr.lanes[i].id), fr.custom)]
        anyErr == \E i \in 1..n : verdicts[i].v = "err"
        okBcs == {verdicts[i].bc : i \in {j \in 1..n : verdicts[j].v = "ok"}}
        bcMismatch == Cardinality(okBcs) > 1
